@@ -26,6 +26,10 @@ def build(shape, rng, solver_results=False):
     ny, nx = 4, 5
     names = ["west_mast", "T10", "east_mast", "T2"] + ["m%02d" % (97 - 7 * k) for k in range(12)]   # deliberately not in sorted order
     towers = [{"name": names[i], "lat": 50.0 + 0.0011 * (i + 1), "lon": 11.0 - 0.0007 * (i + 1), "z_m": 5.0 + 1.5 * i} for i in range(nt)]
+    if nt >= 2:
+        towers[-1]["lat"] = 0.0          # a tower on the equator, one on the Greenwich meridian: 0.0 is a position
+    if nt >= 3:
+        towers[0]["lon"] = 0.0
     met = {"mol": [-50.0 - 3.0 * t for t in range(ns)], "wind_speed": [2.0 + 0.25 * t for t in range(ns)], "wind_dir": [10.0 + 33.0 * t for t in range(ns)]}
     if shape["forcing"] == "ustar":
         met["ustar"] = [0.2 + 0.01 * t for t in range(ns)]
